@@ -72,7 +72,7 @@ CHECKS = {
    "7.1"),
  "C04": (True, "c04", "model_checking",
    "bounded exhaustive enumeration: setup variants x contents, both entry points on twin worlds, every single (thorough: pair of) field mutation of the raw transaction, witness scripts and semantic arguments on a fresh real signer; oracle = harness-assembled BOLT-3 transaction + secp256k1 verification",
-   "24 (20 quick) setup variants (commitment type, direction, delay pair inside and on both edges of the policy range, funding outpoint) x 7-8 contents (no HTLC, offered, received, two identical received, both, HTLC just above / below the trim limit, a small HTLC at a low claimed fee rate, three HTLCs): the semantic entry point signs and every commitment / HTLC signature is verified against the transaction the harness assembles from the setup, the basepoints and the content; the raw entry point must accept that transaction on a twin signer and return the same signature; then every mutation (version, locktime, sequence, prevout txid/vout, input witness / script_sig, each output value +-1/+1000, script byte flips and truncation, swapped / dropped / duplicated / extra outputs, extra input, witness-script flips / removal / swaps, fee rate, commitment number, per-commitment point, HTLC list edits) is presented to the raw entry point: acceptance requires byte equality with the canonical transaction of the content the presented arguments imply and a signature that verifies against it.",
+   "24 (20 quick) setup variants (commitment type, direction, delay pair inside and on both edges of the policy range, funding outpoint, simple / chain-aware validator) x 7-8 contents (no HTLC, offered, received, two identical received, both, HTLC just above / below the trim limit, a small HTLC at a low claimed fee rate, three HTLCs): the semantic entry point signs and every commitment / HTLC signature is verified against the transaction the harness assembles from the setup, the basepoints and the content; the raw entry point must accept that transaction on a twin signer and return the same signature; then every mutation (version, locktime, sequence, prevout txid/vout, input witness / script_sig, each output value +-1/+1000, script byte flips and truncation, swapped / dropped / duplicated / extra outputs, extra input, witness-script flips / removal / swaps, fee rate, commitment number, per-commitment point, HTLC list edits) is presented to the raw entry point: acceptance requires byte equality with the canonical transaction of the content the presented arguments imply and a signature that verifies against it.",
    "Canonical transaction built with LDK's BOLT-3 builder from parameters assembled by the harness (not Channel's helpers); LDK and secp256k1 trusted. Panics of the signer (outputs above the channel value) are counted, not treated as acceptance.",
    "4.1"),
  "C05": (True, "c05", "model_checking",
@@ -82,7 +82,7 @@ CHECKS = {
    "4.2"),
  "C07": (True, "c07", "model_checking",
    "deviation-bounded exhaustive enumeration (d=1 quick, d=2 thorough) of mutual-close requests over channel states reached by real commitment updates, both entry points, with a u128 reference predicate and a closing transaction built from first principles (cross-checked against LDK's builder on every case)",
-   "Bases: 10 channel states reached through validate/revoke/sign/revocation requests (both sides at commitment 0; at 1 with equal views; the two views differing by eps-1, eps, eps+1, -(eps+1), 2eps+1; an HTLC pending in the holder's, the counterparty's or both current commitments) x funder / fundee x commitment type x upfront shutdown script (none, wallet, allowlisted foreign) x entry point (semantic, raw transaction). Deviations: non-fee-payer's value at +-1, +-eps, +-(eps+1) and 0; fee at min-2, min, max, max+2, 0 and 900000 sat; holder script kind (wallet at the right / wrong / no path, allowlisted, foreign, upfront, absent); counterparty script absent, or a wallet (with / without path) or allowlisted script; allowlist cleared between setup and signing; for the raw entry point output order, paths attached to the other output, version, locktime, sequence, prevout, extra output. Accepted => the reference holds (for the raw entry point: for some assignment of outputs to parties), the signature verifies against the independently built closing transaction spending the funding outpoint under the funding key, and channel_closed is set live and in a signer restored from a copy of the store.",
+   "Bases: 10 channel states reached through validate/revoke/sign/revocation requests (both sides at commitment 0; at 1 with equal views; the two views differing by eps-1, eps, eps+1, -(eps+1), 2eps+1; an HTLC pending in the holder's, the counterparty's or both current commitments) x funder / fundee x commitment type x upfront shutdown script (none, wallet, allowlisted foreign) x entry point (semantic, raw transaction) x simple / chain-aware validator. Deviations: non-fee-payer's value at +-1, +-eps, +-(eps+1) and 0, the two values swapped; fee at min-2, min, max, max+2, 0 and 900000 sat; holder script kind (wallet at the right / wrong / no path, allowlisted, foreign, upfront, absent); counterparty script absent, or a wallet (with / without path) or allowlisted script; allowlist cleared between setup and signing; for the raw entry point output order, paths attached to the other output, version, locktime, sequence, prevout, extra output. Accepted => the reference holds (for the raw entry point: for some assignment of outputs to parties), the signature verifies against the independently built closing transaction spending the funding outpoint under the funding key, and channel_closed is set live and in a signer restored from a copy of the store.",
    "epsilon 1000 sat, fee range 500..20000 sat/kw in the policy used; fee-rate rounding in the accepting direction.",
    "4.3"),
  "C08": (True, "c08", "model_checking",
